@@ -12,11 +12,18 @@ Transcription map (the tree with the four `fix:` commits of known_findings.d/C10
 * `ParseMessages` (open node, heartbeat disabled)                     → `poll`
 * `SendMsg` with the ISO-TP branch                                    → `sendMsgTP` (wraps `Send.gate` / `Send.produce`)
 * `CheckKnownMessage` (no application-declared lists)                 → `checkKnown`
+* `UpdateHasPendingInformation` / `SendProductInformation` / `SendConfigurationInformation` / the per-device body of
+  `SendPendingInformation` → `updateHasPending` / `sendProductInformation` / `sendConfigurationInformation` / `pendingDev`
+  (the content of the two messages is a parameter of the node: `prod`, `conf`)
+* `HandleReceivedSystemMessage` (ISO request only) / `HandleISORequest` / `RespondISORequest` → `systemMessage` /
+  `handleIsoRequest` / `respondIsoRequest` (requests for 60928, 126996, 126998, NAK for the rest; no `ISORqstHandler`;
+  a request for the PGN lists 126464 is NOT modelled)
 
 Every frame leaves through `Send.sendMsg` (`emit`). `unsigned char` arithmetic is `% 256`.
 The receive buffer handed to the library is 8 bytes whatever the frame length says (`buf8`).
-Not modelled: delivery to the library's own system-message handlers (transported PGNs are not
-59392/59904/60928/65240/126208), application-declared PGN lists, message forwarding.
+Not modelled: the library's own handling of received 60928 / 65240 / 126208 and of anything that arrives by the transport
+protocol (transported PGNs are not 59392/59904/60928/65240/126208), `PendingIsoAddressClaim`, application-declared PGN lists,
+message forwarding.
 -/
 namespace N2k.TP
 open N2k.Send N2k.Time
@@ -57,6 +64,14 @@ structure Delivery where
   data : List Nat
   deriving DecidableEq, Repr
 
+/-- the other pending-information timers of a device: `PendingProductInformation`, `PendingConfigurationInformation`
+(`none` = `Disable()`d; `PendingIsoAddressClaim` is never armed in the modelled scenarios) -/
+structure InfoDev where
+  pendProd : Option Sched := none
+  pendConf : Option Sched := none
+
+def noMsg : Msg := { prio := 6, pgn := 0, src := 15, dst := 255, len := 0, data := [] }
+
 structure Node where
   s : St
   tp : Nat → TpDev
@@ -64,11 +79,14 @@ structure Node where
   onlyKnown : Bool             -- HandleOnlyKnownMessages()
   rxq : List Frame             -- frames waiting in the CAN driver
   out : List Delivery          -- handler calls so far
+  info : Nat → InfoDev := fun _ => {}
+  prod : Msg := noMsg          -- the product information message (PGN 126996) the node answers with
+  conf : Option Msg := none    -- the configuration information message (PGN 126998), if any was set
 
-def noMsg : Msg := { prio := 6, pgn := 0, src := 15, dst := 255, len := 0, data := [] }
 def TpDev.init (f : Flavor) : TpDev := { pend := noMsg, nextSeq := 0, timer := Sched.disabled f, hasPending := false }
 
 def Node.setTp (n : Node) (i : Nat) (t : TpDev) : Node := { n with tp := fun j => if j = i then t else n.tp j }
+def Node.setInfo (n : Node) (i : Nat) (x : InfoDev) : Node := { n with info := fun j => if j = i then x else n.info j }
 def Node.setSlot (n : Node) (j : Nat) (a : Slot) : Node := { n with slots := n.slots.set j a }
 
 /-- `FreeMessage()`: `Clear()` resets PGN, DataLen, MsgTime; destination, TP flag, LastFrame, CopiedLen stay -/
@@ -113,10 +131,11 @@ def emit (n : Node) (m : Msg) (i : Nat) : Node × Bool :=
   let r := sendMsg n.s m (some i)
   ({ n with s := r.1 }, r.2)
 
-/-- `EndSendTPMessage` (the other pending-information timers are not running) -/
+/-- `EndSendTPMessage`: `Clear()`, `Disable()`, `UpdateHasPendingInformation()` -/
 def endSendTP (n : Node) (i : Nat) : Node :=
   let t := n.tp i
-  n.setTp i { t with pend := { t.pend with pgn := 0, len := 0 }, timer := Sched.disabled n.s.flavor, hasPending := false }
+  n.setTp i { t with pend := { t.pend with pgn := 0, len := 0 }, timer := Sched.disabled n.s.flavor,
+                     hasPending := (n.info i).pendProd.isSome || (n.info i).pendConf.isSome }
 
 def setTimer (n : Node) (i : Nat) (ms : Nat) : Node :=
   n.setTp i { n.tp i with timer := Sched.fromNow n.s.flavor n.s.now ms }
@@ -337,14 +356,85 @@ def handleOther (n : Node) (prio pgn src dst len : Nat) (buf : List Nat) : Node 
 
 def buf8 (f : Frame) : List Nat := (f.data ++ List.replicate 8 0xAA).take 8
 
-/-- handler call for slot `j`, then `FreeMessage()` -/
+/-! ## the other pending information of a device (product / configuration information answers and their retries) -/
+
+/-- `UpdateHasPendingInformation()` -/
+def updateHasPending (n : Node) (i : Nat) : Node :=
+  n.setTp i { n.tp i with hasPending := (n.info i).pendProd.isSome || (n.info i).pendConf.isSome ||
+                                          (n.tp i).timer.isEnabled n.s.flavor }
+
+/-- `SendProductInformation(iDev)`: fast packet to everybody; sent ⇒ `ClearPendingProductInformation()`, else
+`SetPendingProductInformation()` (retry after 187 + 8·address ms) -/
+def sendProductInformation (n : Node) (i : Nat) : Node :=
+  let r := emit n { n.prod with src := srcAddr n i, dst := 0xff, tp := false } i
+  if r.2 then updateHasPending (r.1.setInfo i { r.1.info i with pendProd := none }) i
+  else (r.1.setInfo i { r.1.info i with pendProd := some (Sched.fromNow n.s.flavor n.s.now (187 + srcAddr n i * 8)) }).setTp i
+         { r.1.tp i with hasPending := true }
+
+/-- `SendConfigurationInformation(iDev)` when configuration information was set -/
+def sendConfigurationInformation (n : Node) (i : Nat) (c : Msg) : Node :=
+  let r := emit n { c with src := srcAddr n i, dst := 0xff, tp := false } i
+  if r.2 then updateHasPending (r.1.setInfo i { r.1.info i with pendConf := none }) i
+  else (r.1.setInfo i { r.1.info i with pendConf := some (Sched.fromNow n.s.flavor n.s.now (187 + srcAddr n i * 10)) }).setTp i
+         { r.1.tp i with hasPending := true }
+
+/-- `QueryPending…()` = `IsTime()` of the timer (a disabled timer is never due: its value is the largest one) -/
+def due (n : Node) (o : Option Sched) : Bool :=
+  match o with
+  | none => false
+  | some t => t.isTime n.s.flavor n.s.now
+
+/-- the body of the loop of `SendPendingInformation` for a device with `HasPendingInformation` -/
+def pendingDev (n : Node) (i : Nat) : Node :=
+  let n1 := pendingTP n i
+  let n2 := if due n1 (n1.info i).pendProd then sendProductInformation n1 i else n1
+  match n2.conf with
+  | some c => if due n2 (n2.info i).pendConf then sendConfigurationInformation n2 i c else n2
+  | none => n2
+
+/-- the answer of device `i` to an ISO request (`RespondISORequest`; no `ISORqstHandler`; PGN 126464 is not modelled) -/
+def respondIsoRequest (n : Node) (addressed : Bool) (requester rp i : Nat) : Node :=
+  match n.s.devs[i]? with
+  | none => n
+  | some d =>
+    let ic := isAddressClaimStarted n.s.flavor n.s.now d
+    let n1 := { n with s := { n.s with devs := updDev n.s.devs i ic.1 } }
+    if ic.2 then n1
+    else if rp = 60928 then (emit n1 (claimMsg ic.1) i).1
+    else if rp = 126464 then n1
+    else if rp = 126996 then sendProductInformation n1 i
+    else if rp = 126998 ∧ n1.conf.isSome then
+      match n1.conf with
+      | some c => sendConfigurationInformation n1 i c
+      | none => n1
+    else if addressed then
+      (emit n1 { prio := 6, pgn := 59392, src := srcAddr n1 i, dst := requester, len := 8,
+                 data := [1, 0xff, 0xff, 0xff, 0xff] ++ le3 rp } i).1
+    else n1
+
+/-- `HandleISORequest` for a received PGN 59904 -/
+def handleIsoRequest (n : Node) (d : Delivery) : Node :=
+  let iDev := findDev n.s.devs d.dst
+  if d.dst ≠ 0xff ∧ iDev.isNone then n else
+  let rp := if 3 ≤ d.len ∧ d.len ≤ 8 then d.data.getD 0 0 + d.data.getD 1 0 * 256 + d.data.getD 2 0 * 65536 else 0
+  if d.dst = 0xff then (List.range n.s.devs.length).foldl (fun n i => respondIsoRequest n false d.src rp i) n
+  else respondIsoRequest n true d.src rp (iDev.getD 0)
+
+def deliveryOf (a : Slot) : Delivery :=
+  { pgn := a.pgn, src := a.src, dst := a.dst, prio := a.prio, len := a.dataLen, tp := a.tp, data := a.data.take a.dataLen }
+
+/-- `HandleReceivedSystemMessage`: of the messages the library consumes itself only the ISO request (single frame) is
+modelled; it is acted on by a node in a claimant mode -/
+def systemMessage (n : Node) (a : Slot) : Node :=
+  if !a.tp && a.pgn == 59904 && n.s.claimMode then handleIsoRequest n (deliveryOf a) else n
+
+/-- library's own handling, handler call for slot `j`, then `FreeMessage()` -/
 def deliver (n : Node) (j : Nat) : Node :=
   match n.slots[j]? with
   | none => n
   | some a =>
-    { n with out := n.out ++ [{ pgn := a.pgn, src := a.src, dst := a.dst, prio := a.prio, len := a.dataLen, tp := a.tp,
-                                data := a.data.take a.dataLen }],
-             slots := n.slots.set j (freeMessage a) }
+    let n1 := systemMessage n a
+    { n1 with out := n1.out ++ [deliveryOf a], slots := n1.slots.set j (freeMessage a) }
 
 /-- `if (MsgIndex<MaxN2kCANMsgs) { handlers; FreeMessage }` -/
 def finish (r : Node × Option Nat) : Node :=
@@ -363,9 +453,9 @@ def rxFrame (n : Node) (f : Frame) : Node :=
 /-- the frames one `ParseMessages` reads: at most 20, in order (handling a frame never touches the driver's queue) -/
 def rxList (fs : List Frame) (n : Node) : Node := fs.foldl rxFrame n
 
-/-- `SendPendingInformation` (only the transport part can be pending) -/
+/-- `SendPendingInformation` -/
 def pendingAll (n : Node) : Node :=
-  (List.range n.s.devs.length).foldl (fun n i => if (n.tp i).hasPending then pendingTP n i else n) n
+  (List.range n.s.devs.length).foldl (fun n i => if (n.tp i).hasPending then pendingDev n i else n) n
 
 /-- `SendFrames()` at the start of `ParseMessages` -/
 def flush (n : Node) : Node :=
